@@ -103,6 +103,7 @@ pub struct Exec {
     pub pool_threads: usize,
     probe: RwLock<Option<Arc<dyn Fn() -> bool + Send + Sync>>>,
     flag_addr: AtomicU64,
+    cancel_addr: AtomicU64,
 }
 
 static EPOCH: AtomicU64 = AtomicU64::new(1);
@@ -254,6 +255,7 @@ impl Exec {
             }),
             cv: Condvar::new(),
             flag_addr: AtomicU64::new(0),
+            cancel_addr: AtomicU64::new(u64::MAX),
             fine_grained,
             flag_points,
             pool_threads,
@@ -265,6 +267,10 @@ impl Exec {
 
     pub fn set_flag_addr(&self, a: u64) {
         self.flag_addr.store(a, Ordering::Relaxed);
+    }
+
+    pub fn set_cancel_addr(&self, a: u64) {
+        self.cancel_addr.store(a, Ordering::Relaxed);
     }
 
     pub fn set_probe(&self, p: Arc<dyn Fn() -> bool + Send + Sync>) {
@@ -358,6 +364,14 @@ impl Exec {
         // accesses to the library's flags (cancel flag, notification flag): only those to the
         // notification flag are scheduling points, and only in scenarios about the wake-up protocol
         if id == "atomic:load" || id == "atomic:store" {
+            // stores to the cancel flag (tick, restart, before a spawn) are scheduling points in
+            // every scenario; its loads sit in the worker's per-item loops and are not
+            if id == "atomic:store" && data == self.cancel_addr.load(Ordering::Relaxed) {
+                if let Some(tid) = my_tid(self) {
+                    self.park(tid, "cancel:store", 0, Wait::None);
+                }
+                return;
+            }
             if !self.flag_points || data != self.flag_addr.load(Ordering::Relaxed) {
                 return;
             }
